@@ -132,6 +132,22 @@ func EvalCons(c Conf) []ConsViolation {
 			add("must", "/cons/defdep2", "", "defmode=%q (set=%v, default on)", dm, set)
 		}
 	}
+	// a defaulted leaf whose own must fails on the default value
+	sdPresent := false
+	for k := range c {
+		if k == "/cons/sd" || strings.HasPrefix(k, "/cons/sd/") {
+			sdPresent = true
+		}
+	}
+	if sdPresent {
+		mode, set := c["/cons/sd/mode"]
+		if !set {
+			mode = "on"
+		}
+		if mode != "off" && c["/cons/sd/en"] != "true" {
+			add("must", "/cons/sd/mode", "", "mode=%q (set=%v, default on) en=%q", mode, set, c["/cons/sd/en"])
+		}
+	}
 	// collect list entries
 	entries := func(list string) map[string]map[string]string {
 		res := map[string]map[string]string{}
